@@ -10,7 +10,7 @@ EXPLANATION = ('Static rules: I1 RepeatTask counts seq only by +1, only after th
                'iteration re-arms a fresh new_timer(self.interval) that replaces it (one period between ticks, never earlier however late '
                'the executor runs); I3 the stream drivers relay Some(v) as next, end with take()+complete (or error) and Ready, and '
                'construct Pending only by propagating the inner poll; the one-shot task functions have their documented shape (C03.S1) and '
-               'the _at forms convert the deadline in the right direction (C07.T2). I5 every Scheduler::schedule awaits the delay timer to Ready before the first poll of the task, for every non-None delay (same rule as C19.H2); I4 timer and interval start their clock at subscription: the plain constructors do not read the clock (same rule as C13.Z1), the _at forms compute deadline - now forwards (same rule as C07.T2). Does not decide wall/virtual time ("exactly one '
+               'the _at forms convert the deadline in the right direction (C07.T2). I6 the future relay (FutureTask::poll, behind from_future/from_future_result) takes its observer out of the argument slot only after the inner future answered Ready and returns Pending only when the future did (a future pending k polls loses nothing); I5 every Scheduler::schedule awaits the delay timer to Ready before the first poll of the task, for every non-None delay (same rule as C19.H2); I4 timer and interval start their clock at subscription: the plain constructors do not read the clock (same rule as C13.Z1), the _at forms compute deadline - now forwards (same rule as C07.T2). Does not decide wall/virtual time ("exactly one '
                'period"), clock jumps or poll orders: timing is delegated to the timer future, which is trusted.')
 ASSUMPTIONS = ['the timer future completes no earlier than its duration']
 
@@ -29,7 +29,58 @@ def check(cx):
 
 
 def _check_own(cx):
-    return i12(cx) + ([] if cx.control else i3(cx) + i4(cx) + i5(cx))
+    return i12(cx) + ([] if cx.control else i3(cx) + i4(cx) + i5(cx) + i6(cx))
+
+
+def i6(cx):
+    """from_future / from_future_result relay whatever the future yields, however often it is Pending first: FutureTask::poll takes its
+    argument (the observer) out of the Option slot only once the inner future has been polled and did not answer Pending — taken earlier,
+    the observer is dropped with the first Pending and the value is never relayed"""
+    from ..core import TAKE, recv_class
+    F = cx.facts
+    res = []
+    n = 0
+    for im in F.impls_of('futures::Future'):
+        tag = roles.impl_tag(cx, im)
+        if tag != 'scheduler::FutureTask':
+            continue
+        fn = F.impl_fn(im, 'poll')
+        if fn is None:
+            continue
+        n += 1
+        g = cx.graph(fn['key'])
+        label = cx.label(fn)
+        slot = roles.field_where(cx, tag, lambda t, ti: roles.is_option_of(F, t), 'argument slot')
+        polls = [x for x in g.nodes if x['kind'] == 'call' and x['name'] == 'futures::Future::poll' and not x['ctx']]
+        pv = {strip(x['value']) for x in polls}
+        takes = [x for x in g.nodes if x['kind'] == 'call' and x['name'] in TAKE and x['args'] and recv_class(x['args'][0]) == 'self.' + slot]
+
+        def step(st, nd, lab):
+            if st == 'BAD':
+                return None
+            d, v = sw_value(lab)
+            if d is not None:
+                dd = strip(d)
+                if dd[0] == 'discr' and strip(dd[1]) in pv:
+                    st = 'ready' if v == 0 else 'pending'
+            if nd in polls:
+                return 'polled'
+            if nd in takes and st in ('start', 'pending'):
+                return 'BAD'
+            if nd['kind'] == 'assign' and not nd['ctx'] and nd['lhs'][0] == 'local' and nd['lhs'][1] == 0 and _is_pending(nd['rhs']) and st != 'pending':
+                return 'BAD'
+            return st
+        r, pr = explore(g, 'start', step)
+        bad = [k for k in r if k[1] == 'BAD']
+        ok = bool(polls) and bool(takes) and not bad
+        res.append(Finding(ID, 'I6', label, ok,
+                           'the observer leaves its slot only after the future answered Ready; Pending is only propagated' if ok else
+                           ('the argument slot (observer) is emptied before the inner future answered Ready — or Pending is returned without it: a future that is Pending on its first poll loses its observer, nothing is ever relayed'
+                            if bad else 'FutureTask::poll does not poll its future / never takes its arguments'),
+                           fn['span'], witness(g, pr, bad[0], interesting_default) if bad else []))
+    if n != 1:
+        res.append(Finding(ID, 'I6', 'floor', False, 'expected one FutureTask poll impl, found %d' % n))
+    return res
 
 
 def i5(cx):
